@@ -4,7 +4,7 @@
 (*                                                                                    *)
 (* A store is a sequence of arrays; the identity of an array is its position in the   *)
 (* store.  An element is a primitive JsVal or Ref(id).  Every method is an operator   *)
-(*      M(store, recv, args, cbk, devs)  ->  [out, alt, store, log, perm, opaque]     *)
+(*      M(store, recv, args, cbk, devs)  ->  [out, alt, store, log, perm ("" | "last" | "any"), opaque]     *)
 (* i.e. an action given as a function: pre-state, result, post-state and the exact    *)
 (* sequence of callback invocations (log).  Callbacks are scripted responders: a      *)
 (* finite table  call number -> return value | throw | mutate the receiver.           *)
@@ -32,7 +32,7 @@ ValOut(v)    == [o |-> "value", v |-> v, cls |-> ""]
 ErrOut(c)    == [o |-> "throw", v |-> Undef, cls |-> c]        \* an Error object of class c
 ThrownOut(v) == [o |-> "throw", v |-> v, cls |-> "value"]      \* a thrown non-error value
 HostOut(c)   == [o |-> "host", v |-> Undef, cls |-> c]         \* as-is only: a host exception escapes
-R(out, st)   == [out |-> out, alt |-> <<>>, store |-> st, log |-> <<>>, perm |-> FALSE, opaque |-> ""]
+R(out, st)   == [out |-> out, alt |-> <<>>, store |-> st, log |-> <<>>, perm |-> "", opaque |-> ""]
 
 \* ---- conversions ---------------------------------------------------------------------------
 ToBool(v) == CASE v.k \in {"undef", "null"} -> FALSE
@@ -211,7 +211,7 @@ Invoke(S, r, cbk, cargs, thisv) ==
                !.frozen = IF detach THEN old ELSE S.frozen,
                !.isFrozen = S.isFrozen \/ detach]
 ThisFor(cbk, devs) == IF cbk.hasThis /\ "Dev_ThisArgIgnored" \notin devs THEN cbk.this ELSE Undef
-Fin(S, out) == [out |-> out, alt |-> <<>>, store |-> S.store, log |-> S.log, perm |-> FALSE,
+Fin(S, out) == [out |-> out, alt |-> <<>>, store |-> S.store, log |-> S.log, perm |-> "",
                 opaque |-> IF S.thr # <<>> /\ S.thr[1].cls = "value" THEN "Dev_CallbackThrow" ELSE ""]
 
 IterMethods == {"forEach", "map", "filter", "find", "findIndex", "some", "every"}
@@ -323,14 +323,16 @@ SortM(st, r, cbk, devs) ==
           THEN \* implementation-defined order: any permutation with undefined last (judged as such);
                \* Dev_SortCmpInt: int(NaN) raises a host ValueError out of list.sort (the list stays a permutation)
                IF kind \in {"nan", "str"} /\ "Dev_SortCmpInt" \in devs /\ Len(defs) >= 2
-               THEN [R(HostOut("ValueError"), st) EXCEPT !.perm = TRUE]
-               ELSE [res EXCEPT !.perm = TRUE]
+               THEN [R(HostOut("ValueError"), st) EXCEPT !.perm = "any"]        \* wherever list.sort was interrupted
+               ELSE [res EXCEPT !.perm = "last"]
      ELSE res
 \* multiset equality (every class of the original occurs equally often; equal lengths exclude strangers)
-IsPermUndefLast(before, after) ==
+IsPerm(before, after) ==
   /\ Len(before) = Len(after)
   /\ \A i \in 1..Len(before) : Cardinality({j \in 1..Len(before) : SameX(before[j], before[i])})
                                 = Cardinality({j \in 1..Len(after) : SameX(after[j], before[i])})
+IsPermUndefLast(before, after) ==
+  /\ IsPerm(before, after)
   /\ \A i, j \in 1..Len(after) : (i < j /\ after[i].k = "undef") => after[j].k = "undef"
 
 \* ---- dispatch ------------------------------------------------------------------------------------
